@@ -62,7 +62,7 @@ def compositions(n, maxparts=3):
     return out
 
 
-def run_batches(cr, cu, rows, cols, cuts, thr, miss, with_summary=False):
+def run_batches(cr, cu, rows, cols, cuts, thr, miss, with_summary=False, hist_bound=30000):
     """drive the real functions over consecutive batches; returns the observable statistics"""
     import pandas as pd
     cr.GLOBAL_CARDINALITY_STORAGE.clear()
@@ -78,7 +78,7 @@ def run_batches(cr, cu, rows, cols, cuts, thr, miss, with_summary=False):
         cov = cr.compute_coverage(df, args)
         for c in cols:
             covs[c].append(float(cov[c]))
-        cr.compute_cardinalities(df, _PB(), 30000)
+        cr.compute_cardinalities(df, _PB(), hist_bound)
         cr.compute_value_counts(df, args)
     res = {
         'cov': covs,
@@ -124,14 +124,14 @@ def oracle(rows, cols, cuts, thr, miss):
     return exp
 
 
-def compare(got, exp):
+def compare(got, exp, hist_exact=True):
     probs = []
     for c in exp['card']:
         if any(abs(a - b) > 1e-9 for a, b in zip(got['cov'][c], exp['cov'][c])) or len(got['cov'][c]) != len(exp['cov'][c]):
             probs.append(f'coverage of {c}: {got["cov"][c]} vs exact {exp["cov"][c]}')
         if got['card'][c] != exp['card'][c]:
             probs.append(f'cardinality of {c}: {got["card"][c]} vs exact {exp["card"][c]}')
-        if got['hist'][c] != exp['hist'][c]:
+        if hist_exact and got['hist'][c] != exp['hist'][c]:
             probs.append(f'value counts of {c}: {got["hist"][c]} vs exact {exp["hist"][c]}')
     if got['rare'] != exp['rare']:
         probs.append(f'rare-value report {got["rare"]} vs exact {exp["rare"]}')
@@ -171,6 +171,8 @@ def run_job(job):
         ctx.assume(st['comp'] >= 0, st['comp'] < len(comps))
         st['thr'] = z3.Int('thr')
         ctx.assume(st['thr'] >= 0, st['thr'] <= 2)
+        st['hb'] = z3.Int('hb')     # bound of the value-repetition counter: default 30000, or a small one that saturates
+        ctx.assume(st['hb'] >= 0, st['hb'] <= 1)
         st['miss'] = z3.Int('miss')
         ctx.assume(st['miss'] >= 0, st['miss'] < len(MISS))
         for k, v in job['pins'].items():
@@ -182,10 +184,12 @@ def run_job(job):
         cuts = comps[int(SInt(st['comp'], 0, len(comps) - 1))]
         thr = int(SInt(st['thr'], 0, 2))
         miss = MISS[int(SInt(st['miss'], 0, len(MISS) - 1))]
-        w = {'cond': 'stats', 'rows': rows, 'cols': cols, 'cuts': cuts, 'thr': thr, 'miss': miss}
+        hb = [30000, 2][int(SInt(st['hb'], 0, 1))]
+        w = {'cond': 'stats', 'rows': rows, 'cols': cols, 'cuts': cuts, 'thr': thr, 'miss': miss, 'hist_bound': hb}
         try:
-            got = run_batches(cr, cu, rows, cols, cuts, thr, miss)
-            probs = compare(got, oracle(rows, cols, cuts, thr, miss))
+            got = run_batches(cr, cu, rows, cols, cuts, thr, miss, hist_bound=hb)
+            # with a saturating histogram bound the histogram is truncated by design (C15); every other statistic must stay exact
+            probs = compare(got, oracle(rows, cols, cuts, thr, miss), hist_exact=(hb == 30000))
         except Exception as e:  # the real code raised
             probs = [f'{type(e).__name__}: {e}']
         if probs or out.twin:
@@ -199,19 +203,20 @@ def run_job(job):
 def replay(w):
     cr, cu = real()
     rows, cols, cuts, thr, miss = w['rows'], w['cols'], w['cuts'], w['thr'], w['miss']
+    hb = w.get('hist_bound', 30000)
     try:
-        got = run_batches(cr, cu, rows, cols, cuts, thr, miss, with_summary=True)
+        got = run_batches(cr, cu, rows, cols, cuts, thr, miss, with_summary=True, hist_bound=hb)
     except Exception as e:
         import traceback
         tb = traceback.extract_tb(e.__traceback__)[-1]
         return {'reproduced': True, 'signature': f'C13:exception:{type(e).__name__}:{tb.name}',
                 'what': f'rows {rows} cut {cuts}: {type(e).__name__}: {e} (in {tb.name}, {os.path.basename(tb.filename)}:{tb.lineno})'}
-    probs = compare(got, oracle(rows, cols, cuts, thr, miss))
+    probs = compare(got, oracle(rows, cols, cuts, thr, miss), hist_exact=(hb == 30000))
     if probs:
         kind = 'rare-report' if any('rare' in p for p in probs) and len(probs) == sum('rare' in p for p in probs) else 'stats'
         if kind == 'rare-report':
-            one = run_batches(cr, cu, rows, cols, [len(rows)], thr, miss)
+            one = run_batches(cr, cu, rows, cols, [len(rows)], thr, miss, hist_bound=hb)
             if not compare(one, oracle(rows, cols, [len(rows)], thr, miss)):
                 kind = 'rare-report-split-dependent'
-        return {'reproduced': True, 'signature': f'C13:{kind}', 'what': f'rows {rows} ({cols}) cut into {cuts}, threshold {thr}, missing {miss!r}: ' + '; '.join(probs)}
+        return {'reproduced': True, 'signature': f'C13:{kind}', 'what': f'rows {rows} ({cols}) cut into {cuts}, threshold {thr}, missing {miss!r}, histogram bound {hb}: ' + '; '.join(probs)}
     return {'reproduced': False, 'what': 'statistics equal the exact recomputation'}
